@@ -124,8 +124,15 @@ def check_table(drv, ev, data, syms, mname, bits):
             if code in fam:
                 if txt not in fam[code]:
                     return "entry #%d: %s code %d renders as %r on %s, elf.h says %r" % (i, pfx, code, txt, mname, sorted(fam[code]))
-            elif not (txt.startswith(pfx + "_") and ("LOOS+" in txt or "LOPROC+" in txt or "???" in txt)):
-                return "entry #%d: %s code %d (no name in elf.h for %s) renders as %r" % (i, pfx, code, mname, txt)
+            else:
+                # a code without a name: as an offset into the reserved range it lies in (both ends inclusive:
+                # LOOS..HIOS = 10..12, LOPROC..HIPROC = 13..15), otherwise marked as unknown
+                want = "%s_LOOS+%d" % (pfx, code - 10) if 10 <= code <= 12 and pfx != "STV" else \
+                       "%s_LOPROC+%d" % (pfx, code - 13) if 13 <= code <= 15 and pfx != "STV" else None
+                if want is not None and txt != want:
+                    return "entry #%d: %s code %d (no name in elf.h for %s) renders as %r, expected %r" % (i, pfx, code, mname, txt, want)
+                if want is None and not (txt.startswith(pfx + "_") and "???" in txt):
+                    return "entry #%d: %s code %d (no name in elf.h for %s) renders as %r" % (i, pfx, code, mname, txt)
     return None
 
 
